@@ -24,3 +24,40 @@ Qed.
 Theorem run_c07p_extends : forall inp,
   Forall old_kind (sx_list (sx_nth inp 1)) -> run_c07p inp = run_c07 inp.
 Proof. intros inp H. unfold run_c07p, run_c07. rewrite run_queries_p_old by assumption. reflexivity. Qed.
+
+(* ---------------------------------------------------------------- run_c07d: the verdict field
+   run_c07d only APPENDS one field to the output of run_c07p; a verdict 1 in its first / second component
+   gives the rank certificate / closedness of the specification the run decodes (spec_of (map dec_rule descs)). *)
+From CSS Require Import Count.ObjectsSpec Count.ParseTreesDeciders Count.ParseTreesDecidersProofs.
+
+Lemma run_c07d_extends inp :
+  exists v, run_c07d inp = L (sx_list (run_c07p inp) ++ [v]).
+Proof. eexists. reflexivity. Qed.
+
+Lemma spec_of_lspec (descs : list sx) (c : nat) :
+  spec_of (map dec_rule descs) c = lspec (rules_of_descs descs) c.
+Proof.
+  unfold spec_of, lspec, rules_of_descs. rewrite !nth_error_map.
+  destruct (nth_error descs c) as [d|]; simpl; [destruct (dec_rule d); reflexivity|reflexivity].
+Qed.
+
+Lemma rank_verdict_rank descs :
+  sx_nth (rank_verdict descs) 0 = I 1 ->
+  exists rank, productive_reads (spec_of (map dec_rule descs)) rank /\ productive_levels rank.
+Proof.
+  unfold rank_verdict, sx_nth. simpl. intros H.
+  assert (Hb : rankb (rules_of_descs descs) = true).
+  { unfold rankb. destruct (check_pos _ _); [reflexivity|discriminate]. }
+  destruct (rankb_sound _ Hb) as (rank & H1 & H2). exists rank. split; [|assumption].
+  intros c r n c' m Hc. rewrite spec_of_lspec in Hc. apply H1. assumption.
+Qed.
+
+Lemma rank_verdict_closed descs :
+  sx_nth (rank_verdict descs) 1 = I 1 -> closed (spec_of (map dec_rule descs)).
+Proof.
+  unfold rank_verdict, sx_nth. simpl. intros H.
+  assert (Hb : closedb (rules_of_descs descs) = true).
+  { destruct (closedb _); [reflexivity|discriminate]. }
+  intros c r n c' m Hc Hn Hin. rewrite spec_of_lspec in Hc. rewrite spec_of_lspec.
+  exact (closedb_sound _ Hb c r n c' m Hc Hn Hin).
+Qed.
